@@ -63,9 +63,15 @@ def analyse(prog):
             expr(e.value)
         elif isinstance(e, M.Index):
             i = e.idx
-            safe = isinstance(i, M.Lit) or (isinstance(i, M.Var) and i.name[:1] == "i" and i.name[1:].isdigit()) or (
-                isinstance(i, M.Bin) and i.op == "%" and isinstance(i.r, M.Lit) and i.r.value > 0
-                and isinstance(i.l, M.Var) and i.l.ty == M.UINT)
+            bt = e.base.ty
+            size = bt[2][0] if bt[0] == "a" else bt[2] if bt[0] in "vm" else 0
+            # provably in range: a literal (checked statically by the compiler), or `x % k` with a literal
+            # 0 < k <= size (Python's % with a positive modulus is never negative).  Everything else is a
+            # dynamic index that may legitimately be out of range - including loop counters, whose bounds
+            # the shrinker is free to edit.
+            safe = isinstance(i, M.Lit) or (
+                isinstance(i, M.Bin) and i.op == "%" and isinstance(i.r, M.Lit) and isinstance(i.r.value, int)
+                and 0 < i.r.value <= size)
             if not safe:
                 info["may_oob"] = True
             expr(e.base)
